@@ -61,3 +61,21 @@ Example C07_example :
   [SOOk; SOOk; SOData (Some (5, 5)); SOOk; SOData (Some (5, 5)); SOOk; SOData None; SOOk;
    SOData (Some (5, 5)); SOOk; SOData (Some (5, 5)); SOOk; SOData (Some (7, 7)); SOData None].
 Proof. vm_compute. reflexivity. Qed.
+
+(* The third clause at the place where it is decided, Chain.updateState (model Model/ChainState.v,
+   engine chainstate run with -prop C07 on the real chain with a real StateCache and one BlockCache
+   per block): after any history of transactions the node values every later read returns - through
+   transaction cache, block cache, state cache and trie - are the initial ones overwritten by the
+   writes of the successfully applied calls only; a call that failed (chargeably or internally) or
+   whose transaction was rejected leaves nothing behind for any key. *)
+From ZC Require Model.ChainState Proof.ChainState Proof.ChainStateC02.
+Theorem C07_failed_txn_invisible_to_later_reads :
+  (forall cfg h st,
+      ChainState.st_nodes (ChainState.cs_run cfg st h) =
+      ChainState.cs_apply_writes (ChainStateC02.cs_committed_writes cfg st h) (ChainState.st_nodes st)) /\
+  (forall cfg st round tx r k,
+      (forall ws trs sg evs out, r <> ChainState.SCOk ws trs sg evs out) ->
+      ChainState.cs_get k (ChainState.st_nodes (ChainState.cs_post st (ChainState.cs_update_state cfg st round tx r)))
+      = ChainState.cs_get k (ChainState.st_nodes st)).
+Proof. exact (conj ChainStateC02.cs_c02_nodes_after_history ChainStateC02.cs_c02_failed_call_invisible). Qed.
+Print Assumptions C07_failed_txn_invisible_to_later_reads.
